@@ -98,7 +98,7 @@ func firstDiff(a, b string) string {
 
 func runC03(run *Run, replay string) {
 	run.Res.Rule = "every public query on generated scenarios (schemas with up to 24 addressable attributes per body so that sorts leave the insertion-sort regime) is repeated on the same decoder (12x for collection and file queries, 3x for positional ones, interleaved with all other queries) and once on a freshly generated world (new schema objects, new parse, new decoder); results are compared structurally with element order (diagnostics as multisets); distinct non-trivial = distinct (file text, query, offset) with a non-empty result"
-	o := Omni{Bases: 36, PosSample: 14, OnlyBase: -1, Opts: ScenarioOpts{Histories: 2, Gen: GenOpts{MaxDepth: 2}}}
+	o := Omni{FocusThin: 4, Bases: 36, PosSample: 14, OnlyBase: -1, Opts: ScenarioOpts{Histories: 2, Gen: GenOpts{MaxDepth: 2}}}
 	if run.Thorough {
 		o.Bases, o.PosSample, o.Opts.Histories = 400, 60, 10
 	}
@@ -256,7 +256,7 @@ func fingerprintWorld(w *World) string {
 
 func runC04(run *Run, replay string) {
 	run.Res.Rule = "same scenario generator as C01 (dependent bodies at two levels, nested blocks, dynamic/count/for_each extensions); a structural fingerprint of every path context (schema tree incl. dependent bodies and constraints, file bytes up to capacity and syntax trees, functions, collected targets/origins) is taken before and compared after every query, including queries that return errors or panic; a reflection-based deep comparison of the schema against a private clone is made at the end of each scenario; exported helpers (NewSchemaKey) are checked not to reorder their arguments; distinct non-trivial = distinct (file text, query, offset) executed"
-	o := Omni{Bases: 36, PosSample: 14, OnlyBase: -1, Opts: ScenarioOpts{Histories: 3, Gen: GenOpts{MaxDepth: 2}}}
+	o := Omni{FocusThin: 5, Bases: 36, PosSample: 14, OnlyBase: -1, Opts: ScenarioOpts{Histories: 3, Gen: GenOpts{MaxDepth: 2}}}
 	if run.Thorough {
 		o.Bases, o.PosSample, o.Opts.Histories = 150, 30, 6
 	}
